@@ -11,7 +11,7 @@ class Prop(RefProp):
     n_cases = {'quick': 600, 'thorough': 20000}
     profile = {'bodies': {'probe': 30, 'fail': 35, 'incr': 5, 'set': 2, 'call': 18, 'jump': 3, 'switch': 2,
                           'stop': 1, 'stoppipeline': 0, 'stopstepgroup': 1, 'clear': 0, 'clearall': 0, 'pype': 0},
-               'p_swallow': 0.4, 'p_retry': 0.3, 'p_foreach': 0.25, 'p_onerror': 0.4, 'p_handlers': 0.7,
+               'p_swallow': 0.4, 'p_cached': 0.2, 'p_retry': 0.3, 'p_foreach': 0.25, 'p_onerror': 0.4, 'p_handlers': 0.7,
                'n_pipes': (1, 1), 'n_groups': (2, 5)}
     rule = ('failing steps in loops with swallow, under retry, inside called groups (nested) whose callers '
             'are swallowed or retried, inside failure handlers, with onError payloads containing formatting '
@@ -53,6 +53,7 @@ class Prop(RefProp):
                                                 f'no such step is written there'))
             n_entries = len(engine.run_errors(obs))
             pat = obs['eid_pattern'][:n_entries]
-            if len(set(pat)) != len(pat):
+            cached = '"cached"' in __import__('json').dumps(case['lib'])   # pre-built objects recur by design
+            if len(set(pat)) != len(pat) and not cached:
                 out.append(fail('recorded-twice', f'the same exception object appears twice in runErrors: pattern {pat}'))
         return out
